@@ -136,6 +136,23 @@ def stream(family, tier):
                     continue
                 yield {"clauses": facts + cl, "queries": [A(q) for q in qs], "evidence": []}
             yield {"clauses": facts + cl, "queries": [A("k")], "evidence": [[A("n"), True, "pair"]]}
+    elif family == "FTC3":
+        # transitive closure over every graph with >= 3 of the 6 directed edges between three nodes (each edge
+        # 0.5), left-recursion-free form, asked from node a with a free second argument, and as a whole
+        import itertools as _it
+
+        A, rule, fact = G.A, G.rule, G.fact
+        nodes = ["a", "b", "c"]
+        pairs = [(x, y) for x in nodes for y in nodes if x != y]
+        tc = [rule(A("p", "X", "Y"), [[True, A("e", "X", "Y")]]),
+              rule(A("p", "X", "Y"), [[True, A("e", "X", "Z")], [True, A("p", "Z", "Y")]])]
+        for n in (3, 4, 5, 6):
+            for es in _it.combinations(pairs, n):
+                cl = [fact("0.5", A("e", x, y)) for x, y in es] + tc
+                yield {"clauses": cl, "queries": [A("p", "a", "Y")], "evidence": []}
+                if tier != "quick" or k % 4 == 0:
+                    yield {"clauses": cl, "queries": [A("p", "X", "Y")], "evidence": []}
+                k += 1
     elif family == "FT":
         for cl in G.ft_programs():
             qs = [G.A("s"), G.A("t")]
